@@ -53,3 +53,14 @@ package extgrpc
 //@   props C03
 //@   ensures[C03] safeSeq(result1)
 //@   loop 1: invariant[C03] safeSeq(details)
+
+// C20 / C11: a standard gRPC status leaf comes back as a standard gRPC status error (the gogo
+// status is only the wire form); a gogo status leaf comes back as a gogo status error
+//@ func decodeGoGoStatus
+//@   props C20 C11 C05
+//@   ensures !typeis(payload, *gogorpc.Status) ==> result == nil
+//@   ensures typeis(payload, *gogorpc.Status) ==> result == gogoErrOfProto(payload.(*gogorpc.Status))
+
+//@ func decodeGrpcStatus
+//@   props C20 C11 C05
+//@   ensures result == gsErr(gsOf(typeis(payload, *gogorpc.Status) ? gogoErrOfProto(payload.(*gogorpc.Status)) : nil))
